@@ -1585,15 +1585,17 @@ func (c *compiler) compileCallInternal(
 			return err
 		}
 		if internal {
-			switch len(c.codes) - pc {
-			case 2: // optimize identity argument (opscope, opret)
+			switch n := len(c.codes) - pc; {
+			case n == 2: // optimize identity argument (opscope, opret)
 				j := len(c.codes) - 3
 				c.codes[j] = &code{op: opload, v: v}
 				c.codes = c.codes[:j+1]
 				s := c.scopes[len(c.scopes)-1]
 				s.funcs = s.funcs[:len(s.funcs)-1]
 				c.deleteCodeInfo(name)
-			case 3: // optimize one instruction argument (opscope, opX, opret)
+			case n == 3 && c.codes[pc].v.([3]int)[1] == 0:
+				// optimize one instruction argument (opscope, opX, opret)
+				// unless the instruction owns a variable of the scope (label)
 				j := len(c.codes) - 4
 				if c.codes[j+2].op == opconst {
 					c.codes[j] = &code{op: oppush, v: c.codes[j+2].v}
